@@ -543,4 +543,251 @@ theorem inv_deleteEntry {s : St} {p : RPath} {recursive dc : Bool} (inv : Inv s)
         · exact inv_of_ents_eq inv2 (by simp) (recFile_foldl_deleteHardLink _ inv2.recFile)
         · exact inv2
 
+/-! ### rename, operations, runs -/
+
+theorem inv_move_loop (rec : St → RPath → Entry → RPath → Mv) (old new : RPath)
+    (ih : ∀ s o e n, Inv s → Inv (rec s o e n).1) :
+    ∀ (items : List (String × Entry)) (acc : Mv), Inv acc.1 →
+      Inv (items.foldl (moveStep rec old new) acc).1 := by
+  intro items
+  induction items with
+  | nil => intro acc h; exact h
+  | cons it t iht =>
+    intro acc h
+    simp only [List.foldl]
+    apply iht
+    rcases acc with ⟨sa, ra, qa⟩
+    cases ra <;> first | exact h | (simp only [moveStep]; exact ih _ _ _ _ h)
+
+theorem inv_moveEntry (f : Nat) : ∀ s old e new, Inv s → Inv (moveEntry f s old e new).1 := by
+  induction f with
+  | zero => intro s old e new inv; exact inv
+  | succ f ih =>
+    intro s old e new inv
+    unfold moveEntry
+    split
+    · exact inv
+    · have hc := inv_createEntry (s := s) (p := new) (e := { e with hl := 0, cnt := 0 }) (x := false) inv (by simp)
+      split
+      · rename_i s1 q1 hcr
+        rw [hcr] at hc
+        simp only at hc
+        have hsub : Inv (if e.isDir = true then
+            (children s1 old).foldl (moveStep (moveEntry f) old new) (s1, Res.ok, []) else (s1, Res.ok, [])).1 := by
+          split
+          · exact inv_move_loop _ old new ih _ (s1, Res.ok, []) hc
+          · exact hc
+        split
+        · rename_i s2 q2 hs2
+          rw [hs2] at hsub
+          have hd := inv_deleteEntry (s := s2) (p := old) (recursive := false) (dc := false) hsub
+          rcases hde : deleteEntry s2 old false false with ⟨s3, r3, d3⟩
+          rw [hde] at hd
+          cases r3 <;> exact hd
+        · rename_i s2 r2 q2 _ hs2
+          rw [hs2] at hsub
+          exact hsub
+      · rename_i s1 r1 q1 _ hcr
+        rw [hcr] at hc
+        exact hc
+
+/-- the client contract: directories are never given a link identity -/
+def OpOk : Op → Prop
+  | .create _ e _ => e.isDir = true → e.hl = 0
+  | .update _ e => e.isDir = true → e.hl = 0
+  | _ => True
+
+theorem inv_step {s : St} {op : Op} (inv : Inv s) (ok : OpOk op) : Inv (step s op).1 := by
+  cases op with
+  | create p e x =>
+    simp only [step]
+    exact inv_createEntry inv ok
+  | update p e =>
+    simp only [step]
+    exact inv_updateEntry inv ok
+  | write p tag chunks =>
+    simp only [step]
+    refine inv_createEntry inv ?_
+    split <;> simp
+  | link src dst hl =>
+    simp only [step]
+    have : Inv (linkOp s src dst hl).1 := by
+      unfold linkOp
+      split
+      · exact inv
+      · rename_i o ho
+        split
+        · exact inv
+        · rename_i hc
+          have hfile : o.isDir = false := by
+            cases hd : o.isDir with
+            | false => rfl
+            | true => simp [hd] at hc
+          have hl1 : (linked o hl).isDir = false := by unfold linked; split <;> simpa using hfile
+          rcases find_stored inv ho with ⟨e0, hm, hk⟩
+          have h1 : Inv (wInsert s src (linked o hl)) := by
+            refine inv_wInsert inv (by simp [hl1]) (inv.parent _ hm).1 (inv.parent _ hm).2 ?_
+            intro e1 h1
+            rw [mem_unique inv.nodup h1 hm, hk, hl1, hfile]
+          exact inv_createEntry h1 (by simp [hl1])
+    rcases hlo : linkOp s src dst hl with ⟨s', r, q⟩
+    rw [hlo] at this
+    exact this
+  | delete p r i dc =>
+    simp only [step]
+    exact inv_deleteEntry inv
+  | unlink p =>
+    simp only [step]
+    split
+    · exact inv
+    · exact inv_deleteEntry inv
+  | rename src dst =>
+    simp only [step, renameEntry]
+    split
+    · exact inv
+    · exact inv_moveEntry _ _ _ _ _ inv
+
+theorem inv_empty : Inv {} := ⟨by simp, by simp, by simp, by simp⟩
+
+theorem inv_run (ops : List Op) : ∀ s, Inv s → (∀ op ∈ ops, OpOk op) → Inv (run s ops) := by
+  induction ops with
+  | nil => intro s inv _; exact inv
+  | cons op t ih =>
+    intro s inv ok
+    simp only [run, List.foldl]
+    exact ih _ (inv_step inv (ok op (by simp))) (fun o ho => ok o (by simp [ho]))
+
+/-! ### consequences of the invariant -/
+
+theorem ancestors_of_inv {s : St} (inv : Inv s) : ∀ (p : RPath) (e : Entry), (p, e) ∈ s.ents →
+    ∀ q : RPath, q ≠ [] → q <:+ p → q ≠ p → ∃ d, (q, d) ∈ s.ents ∧ d.isDir = true := by
+  intro p
+  induction p with
+  | nil =>
+    intro e _ q hq hs _
+    exact absurd (List.suffix_nil.mp hs) hq
+  | cons a t ih =>
+    intro e he q hq hs hne
+    rcases List.suffix_cons_iff.mp hs with h | h
+    · exact absurd h hne
+    · rcases (inv.parent _ he).2 with h0 | ⟨d, hd, hdir⟩
+      · simp only [List.tail_cons] at h0
+        subst h0
+        exact absurd (List.suffix_nil.mp h) hq
+      · simp only [List.tail_cons] at hd
+        by_cases hqt : q = t
+        · subst hqt; exact ⟨d, hd, hdir⟩
+        · exact ih d hd q hq h hqt
+
+theorem mem_ensureParent (e : Entry) (q : RPath) : ∀ (s : St), Inv s → ∀ x, x ∈ (ensureParent e q s).1.ents →
+    x ∈ s.ents ∨ (x.2.isDir = true ∧ ∀ y, (x.1, y) ∉ s.ents) := by
+  induction q with
+  | nil => intro s _ x hx; exact Or.inl hx
+  | cons n q ih =>
+    intro s inv x hx
+    unfold ensureParent at hx
+    split at hx
+    · exact Or.inl hx
+    · rename_i hnone
+      rcases hr : ensureParent e q s with ⟨s1, b⟩
+      have IH := ih s inv
+      rw [hr] at hx IH
+      cases b with
+      | false => exact IH x hx
+      | true =>
+        simp only at hx
+        rcases mem_wInsert.mp hx with rfl | ⟨hx', _⟩
+        · exact Or.inr ⟨rfl, find_none inv hnone⟩
+        · exact IH x hx'
+
+theorem createEntry_type_stable {s : St} {p : RPath} {e : Entry} {x : Bool} (inv : Inv s) {q : RPath} {a b : Entry}
+    (ha : (q, a) ∈ s.ents) (hb : (q, b) ∈ (createEntry s p e x).1.ents) : a.isDir = b.isDir := by
+  unfold createEntry at hb
+  split at hb
+  · rw [mem_unique inv.nodup ha hb]
+  · rename_i n par
+    split at hb
+    · rename_i hnone
+      have M := mem_ensureParent e par s inv
+      rcases hr : ensureParent e par s with ⟨s1, bb⟩
+      rw [hr] at hb M
+      have old : ∀ y, y ∈ s1.ents → y.1 = q → y.2.isDir = a.isDir := by
+        intro y hy hq
+        rcases M y hy with h | h
+        · rcases y with ⟨y1, y2⟩
+          simp only at hq; subst hq
+          rw [mem_unique inv.nodup h ha]
+        · exact absurd (hq ▸ ha) (h.2 a)
+      cases bb with
+      | false => exact (old _ hb rfl).symm
+      | true =>
+        simp only at hb
+        rcases mem_wInsert.mp hb with h | ⟨h, _⟩
+        · cases h
+          exact absurd ha (find_none inv hnone a)
+        · exact (old _ h rfl).symm
+    · rename_i oldE hold
+      rcases find_stored inv hold with ⟨e0, hm, hk⟩
+      split at hb
+      · rw [mem_unique inv.nodup ha hb]
+      · split at hb
+        · rw [mem_unique inv.nodup ha hb]
+        · rename_i hty
+          rcases mem_wInsert.mp hb with h | ⟨h, _⟩
+          · cases h
+            rw [mem_unique inv.nodup ha hm, hk]
+            simpa using hty
+          · rw [mem_unique inv.nodup ha h]
+
+theorem updateEntry_type_stable {s : St} {p : RPath} {e : Entry} (inv : Inv s) {q : RPath} {a b : Entry}
+    (ha : (q, a) ∈ s.ents) (hb : (q, b) ∈ (updateEntry s p e).1.ents) : a.isDir = b.isDir := by
+  unfold updateEntry at hb
+  split at hb
+  · rw [mem_unique inv.nodup ha hb]
+  · rename_i oldE hold
+    rcases find_stored inv hold with ⟨e0, hm, hk⟩
+    split at hb
+    · rw [mem_unique inv.nodup ha hb]
+    · rename_i hty
+      rcases mem_wInsert.mp hb with h | ⟨h, _⟩
+      · cases h
+        rw [mem_unique inv.nodup ha hm, hk]
+        simpa using hty
+      · rw [mem_unique inv.nodup ha h]
+
+theorem deleteEntry_subset {s : St} {p : RPath} {recursive dc : Bool} (inv : Inv s) :
+    ∀ x ∈ (deleteEntry s p recursive dc).1.ents, x ∈ s.ents := by
+  unfold deleteEntry
+  split
+  · exact fun _ h => h
+  · rename_i n par
+    split
+    · exact fun _ h => h
+    · rename_i e he
+      simp only
+      split
+      · exact fun _ h => h
+      · rename_i s1 dcs hs hr
+        have key : ∀ x ∈ s1.ents, x ∈ s.ents := by
+          by_cases hd : e.isDir = true
+          · simp only [hd, if_true] at hr
+            split at hr
+            · cases hr
+            · exact (batchOk_doBatch _ s (n :: par) _ inv hr).2.1.subset
+          · simp only [hd] at hr
+            cases hr
+            exact fun _ h => h
+        have h2 : ∀ x ∈ (deleteOne s1 (n :: par) e).ents, x ∈ s.ents := by
+          intro x hx
+          unfold deleteOne at hx
+          simp only at hx
+          have := (mem_erase.mp hx).1
+          apply key
+          split at this <;> simpa using this
+        split
+        · intro x hx
+          rw [foldl_deleteHardLink_ents] at hx
+          exact h2 x hx
+        · exact h2
+
 end SwV.Lemmas.C18
